@@ -26,6 +26,7 @@ def run(rep, prog, tier):
     rep.rule('C20.4', 'only the last-yielded one-pass packet is flagged', floor=2)
     rep.rule('C20.5', 'compression wraps everything; CompressedData import restores the setting', floor=5)
     rep.rule('C20.6', 'literal / one-pass / compressed layouts and PGPMessage.new wiring', floor=9)
+    rep.rule('C20.8', 'messages the library itself copies keep their packets whole (packet-level __copy__ carries header and every serialised field)', floor=1)
     rep.rule('C20.7', 'packet length encodings: every encoding of a length (1/2/5 octets, partial chains) reads back to the same body', floor=5)
     rep.assume('SorteDeque iteration order is the order of the trailing signatures; reversed() is its exact reverse (ties included)')
 
@@ -243,6 +244,8 @@ def run(rep, prog, tier):
                   'LiteralData filename codec', 'writer %s reader %s' % (wc, rc),
                   'the file name must be written with the codec it is read with', where=lit.where)
     literal_time(rep, prog, lit)
+    literal_text(rep, prog, lit)
+    message_copies(rep, prog, M)
     nw = M.methods['new']
     for sens, fn in ((True, "'_CONSOLE'"), (False, "os.path.basename('')")):
         kw = nw.node.args.kwarg.arg if nw.node.args.kwarg else 'kwargs'
@@ -410,6 +413,70 @@ def streaming_format(text, data):
     return fmt[0], fmt[1], bounded, dobj
 
 
+def streamed_format(ret, data):
+    """A compress arm that feeds a compressor object piecewise: C.compress(<slice of data>) ... C.flush().
+    -> (container, window, verdict) with verdict 'partition' (every input octet is fed exactly once), 'overlap' (a known-wrong tail:
+    the last chunk is taken from the end by the remainder, which is the whole input again when the remainder is zero) or None
+    (fed pieces not understood); None when the value is not of this shape at all."""
+    if not isinstance(ret, Bytes):
+        return None
+    items = merge_consts(ret.items)
+    flat = []            # (compressor text, argument text, loop (var, coll) or None)
+    for it in items:
+        if it[0] == 'EACH' and len(it[3]) == 1 and it[3][0][0] == 'SYM':
+            flat.append((it[3][0][1], (it[1], it[2])))
+        elif it[0] == 'SYM':
+            flat.append((it[1], None))
+        else:
+            return None
+    if len(flat) < 2:
+        return None
+    comp = None
+    fed = []
+    for i, (text, loop) in enumerate(flat):
+        m = re.match(r'^((?:zlib\.compressobj|bz2\.BZ2Compressor)\((?:[^()]|\([^()]*\))*\))\.(compress|flush)\((.*)\)$', text)
+        if m is None or (comp is not None and m.group(1) != comp):
+            return None
+        comp = m.group(1)
+        if m.group(2) == 'flush':
+            if i != len(flat) - 1 or loop is not None:
+                return None
+        else:
+            fed.append((m.group(3), loop))
+    if not flat[-1][0].endswith('.flush()') or not fed:
+        return None
+    if comp.startswith('bz2.'):
+        fmt = ('bz2', 0)
+    else:
+        a = _call_args(comp, 'zlib.compressobj')
+        w = _wbits(a, 2)
+        fmt = None if w is None else ('raw', -w) if -15 <= w <= -9 else ('zlib', w) if 9 <= w <= 15 else None
+    if fmt is None:
+        return None
+    # which octets are fed
+    verdict = None
+    if fed == [(data, None)] or fed == [('bytes(%s)' % data, None)]:
+        verdict = 'partition'
+    elif len(fed) == 2 and fed[0][1] is not None and fed[1][1] is None:
+        (chunk, (v, coll)), (tail, _) = fed
+        mr = re.match(r'^range\(\(len\(%s\) // (\d+)\)\)$' % re.escape(data), coll)
+        mc = re.match(r'^SLICE\(%s;(.*);(.*)\)$' % re.escape(data), chunk)
+        mt = re.match(r'^SLICE\(%s;(.*);(.*)\)$' % re.escape(data), tail)
+        if mr and mc and mt:
+            B = mr.group(1)
+            blocks = lin_norm(mc.group(1)) in (lin_norm('(%s * %s)' % (v, B)), '(%s * %s)' % (v, B), '(%s * %s)' % (B, v)) and \
+                mc.group(2) in ('((%s + 1) * %s)' % (v, B), '(%s * (%s + 1))' % (B, v), lin_norm('((%s * %s) + %s)' % (v, B, B)))
+            n = '(len(%s) // %s)' % (data, B)
+            good_tail = mt.group(2) == '' and mt.group(1) in ('(%s * %s)' % (n, B), '(%s * %s)' % (B, n), lin_norm('(len(%s) - (len(%s) %% %s))' % (data, data, B)),
+                                                              '(len(%s) - (len(%s) %% %s))' % (data, data, B))
+            bad_tail = mt.group(2) == '' and mt.group(1) in ('-(len(%s) %% %s)' % (data, B), '(-(len(%s) %% %s))' % (data, B))
+            if blocks and good_tail:
+                verdict = 'partition'
+            elif blocks and bad_tail:
+                verdict = 'overlap'
+    return fmt[0], fmt[1], verdict
+
+
 def accepted_format(text, data):
     """(container, window bits) a decompress arm accepts for `data`; None when not modelled."""
     if text == data:
@@ -450,7 +517,7 @@ def compression_pairs(rep, prog):
             continue
         sides = []
         for f, fmt in ((fc, produced_format), (fd, accepted_format)):
-            outs = [s for s in Interp(prog, Scenario(inline=noinline)).run(f, self_val=enum_const(prog, 'CompressionAlgorithm', m)) if s.raised is None]
+            outs = [s for s in Interp(prog, Scenario(inline=noinline, extended=True)).run(f, self_val=enum_const(prog, 'CompressionAlgorithm', m)) if s.raised is None]
             texts = sorted({render(s.ret) for s in outs})
             if f is fd:
                 # the output may not be truncated silently: a slice of the result, or a max_length without a check that nothing is left
@@ -469,6 +536,19 @@ def compression_pairs(rep, prog):
                     mc = re.match(r'^SLICE\((.*);[^;]*;[^;]*\)$', t)
                     return mc.group(1) if mc and accepted_format(mc.group(1), data) is not None else t
                 texts = sorted({uncut(t) for t in texts})
+            if f is fc:
+                # a compressor object fed piecewise: the pieces must be the input, every octet exactly once
+                streamed = [(s, streamed_format(s.ret, f.params[1])) for s in outs]
+                if streamed and all(x is not None for _, x in streamed):
+                    for s, (cont, win, verdict) in streamed:
+                        if verdict is None:
+                            rep.error('C20.5', 'CompressionAlgorithm %s: pieces fed to the compressor not understood: %s' % (m, render(s.ret)[:200]))
+                        else:
+                            rep.check(verdict == 'partition', 'C20.5', 'CompressionAlgorithm.compress', '%s: %s' % (m, render(s.ret)[:300]),
+                                      'the compressor must be fed every input octet exactly once: the last chunk taken from the end by the remainder '
+                                      '(data[-rest:]) is the whole input again when the remainder is zero', where=fc.where, scenario=m)
+                    sides.append((texts, [(x[0], x[1]) for _, x in streamed][:1] if len({(x[0], x[1]) for _, x in streamed}) == 1 else [None]))
+                    continue
             sides.append((texts, [fmt(t, f.params[1]) for t in texts]))
         (ct, cf), (dt, df) = sides
         if len(cf) != 1 or len(df) != 1 or cf[0] is None or df[0] is None:
@@ -585,3 +665,79 @@ def length_codec(rep, prog):
     C09.widths(P, prog, H, B)
     C09.tagoctet(P, prog, B)
     C09.partial(P, prog, B)
+
+
+# ------------------------------------------------------------------------------------------------ literal text codec
+def _codec_name(t):
+    return (t or 'utf-8').strip("'\"").lower().replace('_', '-').replace('utf8', 'utf-8')
+
+
+def literal_text(rep, prog, lit):
+    """C20.6: the text of a literal packet is the same characters on both sides: format 'u' is read with exactly the codec the
+    message text is written with (utf-8, no byte-order-mark handling), format 't' with latin-1, format 'b' is the octets."""
+    pp = lit.find_plain_prop('contents')
+    g = pp.get('get') if pp else None
+    if g is None:
+        raise AnalysisError('LiteralData.contents vanished')
+    me = g.params[0]
+    ttb = prog.method('pgpy.types', 'PGPObject', 'text_to_bytes')
+    wcodec = set()
+    # the message text is converted by text_to_bytes(<text>) with no further argument (PGPMessage.new): other parameters take their defaults
+    tparams = [p_ for p_ in ttb.params if not (ttb.cls is not None and p_ == ttb.params[0] and not any(dotted(d) == 'staticmethod' for d in ttb.node.decorator_list))]
+    targs = {tparams[0]: Sym(tparams[0], types={'str'}, nonnull=True)}
+    dflts = ttb.node.args.defaults
+    for pn, d in zip([a.arg for a in ttb.node.args.args][len(ttb.node.args.args) - len(dflts):], dflts):
+        if pn != tparams[0]:
+            try:
+                targs[pn] = Const(ast.literal_eval(d))
+            except (ValueError, SyntaxError):
+                pass
+    for s in Interp(prog, Scenario(inline=noinline, args=targs)).run(ttb):
+        m = re.match(r"^%s\.encode\((?:'([^']*)')?\)$" % re.escape(tparams[0]), render(s.ret))
+        wcodec.add(_codec_name(m.group(1)) if m else render(s.ret))
+    want = {'t': 'latin-1', 'u': 'utf-8'}
+    for fmt in ('t', 'u', 'b'):
+        outs = Interp(prog, Scenario(inline=noinline, bind={'%s.format' % me: Const(fmt)})).run(g)
+        rets = sorted({render(s.ret) for s in outs if s.raised is None})
+        if fmt == 'b':
+            rep.check(rets == ['%s._contents' % me], 'C20.6', 'LiteralData.contents', 'binary: %s' % rets, 'binary contents are the octets themselves', where=g.where)
+            continue
+        m = re.match(r"^%s\._contents\.decode\((?:'([^']*)')?(?:, '[^']*')?\)$" % re.escape(me), rets[0]) if len(rets) == 1 else None
+        rc = _codec_name(m.group(1)) if m else None
+        ok = rc == want[fmt] and (fmt != 'u' or wcodec == {'utf-8'})
+        rep.check(ok, 'C20.6', 'LiteralData.contents', "format %r read with %s (text written with %s)" % (fmt, rc or rets, sorted(wcodec)),
+                  'literal text is read with exactly the codec it is written with (utf-8 for unicode text: a codec that strips or adds a byte '
+                  'order mark changes the content), latin-1 for format t', where=g.where, expected=want[fmt], found=rc or rets)
+
+
+# ------------------------------------------------------------------------------------------------ copies of message packets
+MESSAGE_PACKETS = ('LiteralData', 'SKEData', 'IntegrityProtectedSKEDataV1', 'PKESessionKeyV3', 'SKESessionKeyV4')
+
+
+def message_copies(rep, prog, M):
+    """C20.8: when an operation of the library itself works on copy.copy(<message>) (instead of the caller's object), what it
+    returns / exports is built from the packet-level copies: every packet class a message holds must then copy whole - header
+    and every field its writer emits.  The operand is recognised as a message by the members it is used through."""
+    own = {n for n in list(M.methods) + list(M.props) + list(M.plain_props)} - {'__init__', '__copy__', '__or__', '__bytearray__', '__str__', '__iter__', 'parse'}
+    others = set()
+    for cn in ('PGPKey', 'PGPSignature', 'PGPUID'):
+        c = prog.cls('pgpy.pgp', cn)
+        others |= set(c.methods) | set(c.props) | set(c.plain_props)
+    only_message = own - others
+    sites = []
+    for fn in prog.all_functions():
+        if fn.name in ('__copy__', '__deepcopy__') or not fn.module.name.startswith('pgpy'):
+            continue
+        for n in ast.walk(fn.node):
+            if isinstance(n, ast.Call) and dotted(n.func) in ('copy.copy', 'copy.deepcopy') and n.args and isinstance(n.args[0], ast.Name):
+                name = n.args[0].id
+                used = {x.attr for x in ast.walk(fn.node) if isinstance(x, ast.Attribute) and isinstance(x.value, ast.Name) and x.value.id == name}
+                if used & only_message:
+                    sites.append((fn, n, sorted(used & only_message)))
+    if not sites:
+        rep.ok('C20.8', 'message copies', 'no operation of the library works on a copy of a message (packet-level copies are reached only through an explicit copy.copy by the caller)')
+        return
+    for fn, n, used in sites:
+        rep.saw(fn=fn)
+    from rules import C14
+    C14.packet_copies(_Relabel(rep, 'C20.8'), prog, 'C20.8', MESSAGE_PACKETS)
